@@ -1,4 +1,5 @@
 import RtcModel.C07Rtp
+import RtcModel.C07Ice
 import RtcModel.Drv.Util
 /-! Driver for C07: one decoder model per stream; output `ok <digest>` / `err <error>` / `panic`. -/
 namespace RtcModel.Drv.C07
@@ -44,6 +45,35 @@ def handle (stream : String) (args : List String) : String :=
     | some nc, some el, some pl, some pd =>
       showRes (Rtp.marshal nc (he = "1") el pl pd (Buf.ofList []) 0) toString
     | _, _, _, _ => "bad-args"
+  | "stun", [hx] =>
+    match unhex hx with
+    | some bs => showRes (runS Ice.stunDecode bs) (fun m => nats m.digest)
+    | none => "bad-hex"
+  | "ufrag", [hx] =>
+    match unhex hx with
+    | some bs => showRes (runS Ice.peerUfrag bs) (fun r => if r.1 then "some " ++ hexA r.2 else "none")
+    | none => "bad-hex"
+  | "uname", [hx] =>
+    match unhex hx with
+    | some bs => showRes (runS Ice.usernameFromStun bs) (fun r => if r.1 then "some " ++ hexA r.2 else "none")
+    | none => "bad-hex"
+  | "hpkt", [hx] =>
+    match unhex hx with
+    | some bs => showRes (runS Ice.handlePacketClass bs) (fun c => if c = 2 then s!"fwd {bs.length}" else "nofwd")
+    | none => "bad-hex"
+  | "turnpkt", [known, hx] =>
+    match unhex hx with
+    | some bs => showRes (runS (fun a => Ice.turnPacket a (known = "1")) bs)
+        (fun r => match r with | [_, 2, len] => s!"fwd {len}" | _ => "nofwd")
+    | none => "bad-hex"
+  | "turntcp", [bl, len, prov] =>
+    match bl.toNat?, len.toNat?, prov.toNat? with
+    | some bl, some len, some prov => showRes (Ice.turnTcpRecv bl len [prov] (Buf.ofList []) 0) toString
+    | _, _, _ => "bad-args"
+  | "rtx", [hx] =>
+    match unhex hx with
+    | some bs => showRes (runS Ice.unwrapRtx bs) (fun r => match r with | none => "none" | some (o, l) => s!"{o} {l}")
+    | none => "bad-hex"
   | _, _ => "bad-stream"
 
 end RtcModel.Drv.C07
